@@ -683,7 +683,19 @@ class CallMixin:
         return res
 
     def bi_iter(self, node, st, ctx):
-        raise Unsupported("iter()")
+        """iter(list): a ghost iterator object over the list (class 'Iter' for lists of values, 'RowIter' for lists of rows,
+        when the contracts declare them): the underlying sequence and the number of items consumed so far"""
+        (x,) = self.args_of(node, st, ctx)
+        if x.ty.kind != "list":
+            raise Unsupported("iter(%r)" % x.ty)
+        cls = "RowIter" if x.ty == List(ROW) else "Iter"
+        decl = self.reg.classes.get(cls)
+        if decl is None or decl["fields"].get("seq") != x.ty:
+            raise Unsupported("iter() over %r (no ghost iterator class declared)" % x.ty)
+        r = st.new_ref()
+        st.set_field(cls, "seq", x.ty, r, x.t)
+        st.set_field(cls, "pos", INT, r, z3.IntVal(0))
+        return SV(Obj(cls), r)
 
     def bi_type(self, node, st, ctx):
         (x,) = self.args_of(node, st, ctx)
